@@ -79,10 +79,14 @@ func (p *scriptCP) Address() string          { return p.addr }
 // trackedConn is what the code under test gets: it records Close().
 type trackedConn struct {
 	net.Conn
-	closed atomic.Bool
+	closed     atomic.Bool
+	closeDelay atomic.Int64 // nanoseconds the first Close takes (a TLS close_notify on a stalled link, ...)
 }
 
 func (t *trackedConn) Close() error {
+	if d := t.closeDelay.Swap(0); d > 0 {
+		time.Sleep(time.Duration(d))
+	}
 	t.closed.Store(true)
 	return t.Conn.Close()
 }
@@ -199,6 +203,7 @@ type mwConn struct {
 }
 
 type muxWorld struct {
+	t0 time.Time // when the manager was started (its housekeeping ticker fires every minute from here)
 	t         *testing.T
 	n         int
 	role      string
@@ -333,6 +338,7 @@ func newMuxWorld(t *testing.T, n int, role string, tcp, bubble, withGRPC bool) *
 	if err != nil {
 		t.Fatal(err)
 	}
+	w.t0 = time.Now()
 	w.mgr.Start()
 	return w
 }
@@ -635,6 +641,24 @@ func (w *muxWorld) die(k int, kind string) {
 		_ = m.peer.Close()
 	case "local":
 		w.mgr.GetMuxConnections()[m.muxID].Close()
+	case "slowclose":
+		// a local close whose teardown is slow (the connection's Close takes 5 s) and straddles the manager's next
+		// once-a-minute housekeeping tick: still one session ending, one slot to refill
+		w.inflight = nil // a ping still in flight times out while we wait for the tick
+		el := time.Since(w.t0)
+		next := (el/time.Minute + 1) * time.Minute
+		if wait := next - 2*time.Second - el; wait > 0 {
+			time.Sleep(wait)
+		} else {
+			time.Sleep(wait + time.Minute)
+		}
+		if m.prov != nil {
+			m.prov.closeDelay.Store(int64(5 * time.Second))
+		}
+		if ms := w.mgr.GetMuxConnections()[m.muxID]; ms != nil {
+			ms.Close()
+		}
+		time.Sleep(9 * time.Second)
 	case "stall":
 		w.inflight = nil // a ping still in flight times out while we wait
 		m.harnShut = true
@@ -763,7 +787,7 @@ func (w *muxWorld) apply(op string) bool {
 		}
 		switch f[2] {
 		case "remote", "local":
-		case "stall":
+		case "stall", "slowclose":
 			if w.tcp {
 				return false
 			}
